@@ -8,6 +8,7 @@ mod c01;
 mod c02;
 mod c03;
 mod c04;
+mod c05;
 mod driver;
 mod respparse;
 mod scenario;
@@ -56,6 +57,7 @@ impl explore::Scenario for Job {
             "C02" => c02::check(&self.sc, &ex, &a),
             "C03" => c03::check(&self.sc, &ex, &a),
             "C04" => c04::check(&self.sc, &ex, &a),
+            "C05" => c05::check(&self.sc, &ex, &a),
             _ => vec![],
         };
         if ex.horizon_hit {
@@ -66,6 +68,7 @@ impl explore::Scenario for Job {
             "C02" => c02::nontrivial(&ex, &a),
             "C03" => c03::nontrivial(&ex, &a),
             "C04" => c04::nontrivial(&ex, &a),
+            "C05" => c05::nontrivial(&ex, &a),
             _ => false,
         };
         let sample = if ch.prefix_len() == 0 {
@@ -148,11 +151,34 @@ fn main() {
              "scenario = request stream (incl. >128 KiB bodies and 9000 pipelined requests) x handler/body programs (pending counts, slow reader, dropping reader, large streamed bodies) x peer plan; every execution with <= d non-default answers - read Pending/k bytes/EOF/reset, write Pending/1/half, flush and shutdown Pending, order of handler/body releases, peer half-close at any event boundary - is run on the real h1::Dispatcher, polled only when its waker fired; at every quiescent point a wake-less poll must change nothing (lost-wake-up probe); non-trivial = more than one socket write, an injected fault, or more than one quiescent point",
              vec!["Date header values are masked", "handlers that hold a request payload forever are excluded (termination is not promised for them)", "a self-waking connection that makes no progress for 3 polls is de-prioritised (counted as spin)", "per-kind choice budgets bound the alternatives offered in very long executions (reported as executions_with_choice_budget_exhausted)"])
         }
+        "C05" => {
+            let s = c05::scenarios(&tier);
+            let b = s.iter().map(|x| c05::bound(x, &tier)).collect();
+            (s, b, "exploration",
+             "scenario = a peer that never stops (1 MiB head without terminator, endless header lines, 2-8 MiB Content-Length and chunked bodies in 1-byte and 64 KiB chunks, 5000 pipelined requests) x consumer (handler never reads / reads one chunk per release / reads in another task / never completes) and huge response bodies (1 B / 4 KiB / 1 MiB chunks) x socket (accepts nothing, stalls after 5000 bytes, accepts) x h1_write_buffer_size in {1, 1024, 32768, 1 MiB}; every execution with <= d deviating socket/handler answers; gauges read-ahead (socket bytes taken - stream offset handed to the application) and write-behind (body bytes pulled - bytes accepted by the socket) are measured at every step; non-trivial = the peer offered more than the read-ahead bound or the body was pulled ahead of the socket",
+             vec!["bounds are constants fixed in the harness and derived from the code's buffer constants (R_IN = 600 000; write: h1_write_buffer_size + largest chunk + 64)", "heap usage is not measured; the gauges are black-box byte counters", "heavy scenarios are explored at a lower deviation bound (see per-level counts)"])
+        }
         other => {
             eprintln!("MACHINERY: h1x does not serve {other}");
             std::process::exit(2);
         }
     };
+    // development aid: restrict the scenario set (recorded in the evidence when used)
+    let only = std::env::var("H1X_ONLY").ok();
+    let (scenarios, bounds): (Vec<_>, Vec<_>) = scenarios
+        .into_iter()
+        .zip(bounds)
+        .filter(|(s, _)| only.as_ref().map(|o| s.name.contains(o.as_str())).unwrap_or(true))
+        .unzip();
+    if std::env::var("H1X_TIMING").is_ok() {
+        for sc in &scenarios {
+            let t = Instant::now();
+            let mut ch = Chooser::new(vec![]);
+            let ex = driver::run(sc, &mut ch);
+            eprintln!("{:>8.2}s steps={:<8} points={:<4} {}", t.elapsed().as_secs_f64(), ex.steps, ch.trace.len(), sc.name);
+        }
+        return;
+    }
     let jobs: Vec<Job> = scenarios.into_iter().map(|sc| Job { prop: prop.clone(), sc }).collect();
     if let Some(path) = &args.replay {
         let v = mc_core::report::read_replay(path);
@@ -193,6 +219,9 @@ fn main() {
         ev.assume(a);
     }
     ev.set("findings", serde_json::Value::Array(rep.summaries()));
+    if let Some(o) = &only {
+        ev.set("scenario_filter_H1X_ONLY", o.as_str());
+    }
     ev.set("violating_executions", stats.violating_executions);
     ev.wall_s = start.elapsed().as_secs_f64();
     ev.violations = rep.unknown_count() as i64;
